@@ -17,7 +17,8 @@ RULE = (
 )
 REQUIRED = ["rank_checked", "left_kernel_checked", "right_kernel_checked", "conservative_true",
             "conservative_false", "consistent_true", "consistent_false", "witness_checked",
-            "build_S_checked", "summary_checked", "kernel_dim_ge2_no_definite_column", "graph_tagged_by_bipartite_only", "graph_tagged_by_kind_only", "history_after_remove_species"]
+            "build_S_checked", "summary_checked", "kernel_dim_ge2_no_definite_column", "graph_tagged_by_bipartite_only", "graph_tagged_by_kind_only", "history_after_remove_species",
+            "integer_law_checked", "integer_law_with_entries_ge_3"]
 ASSUMPTIONS = [
     "float tolerances: kernel residual <= 1e-9 relative, witness residual <= 1e-6 relative, witness entries > 0",
     "positivity decisions: z3 proposes, Fraction arithmetic verifies (positive vector or Stiemke alternative)",
@@ -109,6 +110,19 @@ def check_network(ctx, net, tag="", via_graph=False):
     ctx.count("rank_checked")
     if r_real != r_exact:
         bad("rank", f"stoichiometric_rank={r_real} exact={r_exact}")
+    # ---- integer conservation laws: with a one-dimensional left kernel the law is unique up to scale and rational,
+    # so the integer vector returned has to annihilate S exactly ---- #
+    if n_s - r_exact == 1:
+        laws = stoich.integer_conservation_laws(obj)
+        ctx.count("integer_law_checked")
+        okl = isinstance(laws, list) and len(laws) == 1 and len(laws[0]) == n_s and any(laws[0])
+        if okl:
+            m = [int(x) for x in laws[0]]
+            okl = all(sum(m[i] * int(S[i][j]) for i in range(n_s)) == 0 for j in range(n_r))
+            if any(abs(x) >= 3 for x in m):
+                ctx.count("integer_law_with_entries_ge_3")
+        if not okl:
+            bad("integer-law", f"integer_conservation_laws returned {laws}: not an integer vector m with m·S = 0 (the left kernel is one-dimensional)")
     # ---- kernels ---- (right-kernel vectors are indexed in the code's own column order,
     # so the already verified matrix returned by build_S is used for the residual)
     Sf = np.array(S, dtype=float).reshape(n_s, n_r)
